@@ -53,13 +53,18 @@ EvalKw(kw, vars) == [i \in 1..Len(kw) |-> <<kw[i][1], EvalExpr(kw[i][2], vars)>>
 \* err is the first error in document order; errs collects every error the program contains
 \* (evaluation continues past an error only to collect them): the deferred renderer may hit a
 \* later one first, and the properties do not say which of several errors must surface.
+\* C14: elems lists every HTML element occurrence of the page in document order as
+\* <<element id, occurrence key>>; tops are the occurrences at nesting depth 0 of this piece of
+\* output; marks are <<occurrence key, instance key>>: the element is a root of that instance.
 Res(out, err, zone, insts) == [out |-> out, err |-> err, zone |-> zone, insts |-> insts,
-                               errs |-> IF err = "" THEN {} ELSE {err}]
+                               errs |-> IF err = "" THEN {} ELSE {err},
+                               tops |-> <<>>, elems |-> <<>>, marks |-> <<>>]
 Ok(out) == Res(out, "", FALSE, <<>>)
 Fail(e) == Res(<<>>, e, FALSE, <<>>)
 Zone    == Res(<<>>, "", TRUE, <<>>)
 Join(r1, r2) == [out |-> r1.out \o r2.out, err |-> IF r1.err # "" THEN r1.err ELSE r2.err,
-                 zone |-> r1.zone \/ r2.zone, insts |-> r1.insts \o r2.insts, errs |-> r1.errs \cup r2.errs]
+                 zone |-> r1.zone \/ r2.zone, insts |-> r1.insts \o r2.insts, errs |-> r1.errs \cup r2.errs,
+                 tops |-> r1.tops \o r2.tops, elems |-> r1.elems \o r2.elems, marks |-> r1.marks \o r2.marks]
 
 NoOwner == [has |-> FALSE]
 
@@ -73,24 +78,25 @@ RECURSIVE JoinNames(_, _)
 JoinNames(b, i) == IF i > Len(b) THEN "" ELSE b[i][1] \o (IF i < Len(b) THEN "," ELSE "") \o JoinNames(b, i + 1)
 
 \* What get_context_data() of a generated component returns: <<ok, bindings>>.
-\*  const:   x = literal   clist: x = [v1, v2]   kwarg:  x = kwargs.get(key, "")
+\*  const:   x = literal   clist: x = [v1, v2]   kwarg:  x = kwargs.get(key, "")   id: x = self.id
 \*  inject:  x = self.inject(key[, default])       (KeyError if absent and no default)
 \*  injkeys: x = ",".join(self.inject(key)._fields)
-RECURSIVE ContextData(_, _, _, _)
-ContextData(defs, i, kw, prov) ==
+RECURSIVE ContextData(_, _, _, _, _)
+ContextData(defs, i, kw, prov, inst) ==
   IF i > Len(defs) THEN [err |-> "", b |-> <<>>]
   ELSE LET d == defs[i]
            inj == Nearest(prov, d.a)
            one == CASE d.k = "const"   -> [err |-> "", v |-> Str(d.v)]
                     [] d.k = "clist"   -> [err |-> "", v |-> [k |-> "l", v |-> <<d.v \o "1", d.v \o "2">>]]
                     [] d.k = "kwarg"   -> [err |-> "", v |-> IF HasB(kw, d.a) THEN GetB(kw, d.a) ELSE Str("")]
+                    [] d.k = "id"      -> [err |-> "", v |-> Str(ToString(inst))]      \* self.id
                     [] d.k = "inject"  -> IF inj.k # "u" THEN [err |-> "", v |-> inj]
                                           ELSE IF d.dflt # "" THEN [err |-> "", v |-> Str(d.dflt)]
                                           ELSE [err |-> "KeyError", v |-> Undef]
                     [] d.k = "injkeys" -> IF inj.k # "u" THEN [err |-> "", v |-> Str(JoinNames(inj.v, 1))]
                                           ELSE IF d.dflt # "" THEN [err |-> "", v |-> Str(d.dflt)]
                                           ELSE [err |-> "KeyError", v |-> Undef]
-           rest == ContextData(defs, i + 1, kw, prov)
+           rest == ContextData(defs, i + 1, kw, prov, inst)
        IN IF one.err # "" THEN [err |-> one.err, b |-> <<>>]
           ELSE IF rest.err # "" THEN rest
           ELSE [err |-> "", b |-> <<<<d.x, one.v>>>> \o rest.b]
@@ -216,7 +222,7 @@ EvalComp(n, env, fuel) ==
   LET inst  == env.at
       def   == env.P.comps[n.c]
       kw    == EvalKw(n.kw, env.vars)
-      cd    == ContextData(def.data, 1, kw, env.prov)
+      cd    == ContextData(def.data, 1, kw, env.prov, inst)
       fills == CASE n.body = "none"  -> <<>>
                  [] n.body = "impl"  -> IF n.a = <<>> THEN <<>>
                                         ELSE << <<"default", Closure(n.a, env, <<>>, "", "")>> >>
@@ -242,7 +248,9 @@ EvalComp(n, env, fuel) ==
   IN IF n.body = "fills" /\ (fills = <<>> \/ ~NoDupNames(fills)) THEN Zone   \* body without any captured fill / duplicate names
      ELSE IF cd.err # "" THEN Fail(cd.err)
      ELSE IF Dev(env, "NestedRootCallbackKeyError") /\ env.ckey /\ env.croot # env.queue THEN Fail("KeyError")
-     ELSE Join(Res(<<>>, "", FALSE, << <<inst, n.c>> >>), EvalSeq(def.tpl, 1, env2, fuel - 1))
+     ELSE LET r == Join(Res(<<>>, "", FALSE, << <<inst, n.c>> >>), EvalSeq(def.tpl, 1, env2, fuel - 1)) IN
+          \* C14: every element at depth 0 of the instance's output is one of its root elements
+          [r EXCEPT !.marks = @ \o [k \in 1..Len(r.tops) |-> <<r.tops[k], ToString(inst)>>]]
 
 EvalSlot(n, env, fuel) ==
   IF fuel = 0 THEN Fail("fuel") ELSE
@@ -288,6 +296,9 @@ EvalNode(n, env, fuel) ==
                        ELSE EvalSeq(n.b, 1, env, fuel)
     [] n.t = "for"  -> EvalFor(n, ListOf(Lookup(env.vars, n.xs)), 1, env, fuel)
     [] n.t = "with" -> EvalSeq(n.a, 1, Push(env, WithLayer(n.x, EvalExpr(n.e, env.vars))), fuel)
+    [] n.t = "elem" -> LET r == EvalSeq(n.a, 1, env, fuel)
+                           key == ToString(env.at) IN
+                       [r EXCEPT !.tops = <<key>>, !.elems = << <<n.id, key>> >> \o @]
     [] n.t = "slot" -> EvalSlot(n, env, fuel)
     [] n.t = "comp" -> EvalComp(n, env, fuel)
     [] n.t = "provide" ->
